@@ -428,6 +428,25 @@ WRITER_FIELDS = {
 
 def _template(e: ast.AST) -> Optional[List[Tuple[str, str]]]:
     """f-string -> [('lit', text) | ('field', name)]"""
+    if isinstance(e, ast.Call) and isinstance(e.func, ast.Attribute) and e.func.attr == 'format' and e.keywords and not e.args \
+            and isinstance(e.func.value, ast.Constant) and isinstance(e.func.value.value, str):
+        # '{role}({source}, {target})'.format(role=..., source=..., target=...): named fields, no conversion, no format spec
+        import string
+        kw = {k.arg: k.value for k in e.keywords if k.arg}
+        try:
+            parsed = list(string.Formatter().parse(e.func.value.value))
+        except ValueError:
+            return None
+        out = []
+        for lit, field, spec, conv in parsed:
+            if lit:
+                out.append(('lit', lit))
+            if field is None:
+                continue
+            if field not in kw or spec or conv is not None:
+                return None
+            out.append(('field', norm(kw[field])))
+        return out
     if isinstance(e, ast.Call) and isinstance(e.func, ast.Attribute) and e.func.attr == 'format' and not e.keywords \
             and isinstance(e.func.value, ast.Constant) and isinstance(e.func.value.value, str):
         # '{}({}, {})'.format(a, b, c) with plain positional fields only
@@ -584,6 +603,29 @@ def sym_str(e: ast.AST, truthy: Dict[str, bool], binds: Dict[str, ast.AST]) -> O
         return out
     if isinstance(e, ast.Call) and isinstance(e.func, ast.Attribute) and e.func.attr == 'format':
         ok, fmt = try_fold(e.func.value)
+        if (not ok or not isinstance(fmt, str)) and isinstance(e.func.value, ast.Name) and isinstance(binds.get(e.func.value.id), str):
+            ok, fmt = True, binds[e.func.value.id]                # a module-level template
+        if ok and isinstance(fmt, str) and e.keywords and not e.args:
+            # '{role}({source}, {target})'.format(role=..., source=..., target=...): named fields without conversion or format spec
+            import string
+            kw = {k.arg: k.value for k in e.keywords if k.arg}
+            out = []
+            try:
+                parsed = list(string.Formatter().parse(fmt))
+            except ValueError:
+                return None
+            for lit, field, spec, conv in parsed:
+                if lit:
+                    out.append(('lit', lit))
+                if field is None:
+                    continue
+                if field not in kw or spec or conv not in (None, 's'):
+                    return None
+                p = sym_str(kw[field], truthy, binds)
+                if p is None:
+                    return None
+                out += p
+            return out
         if not ok or not isinstance(fmt, str) or e.keywords:
             return None
         parts = fmt.split('{}')
